@@ -186,8 +186,8 @@ def unit_generated(ctx, which, n):
 
 def units(tier):
     q = tier == 'quick'
-    us = [{'name': 'sweeps', 'fn': 'unit_sweeps', 'kwargs': {'n_random': 20 if q else 400}}]
+    us = [{'name': 'sweeps', 'fn': 'unit_sweeps', 'kwargs': {'n_random': 20 if q else 2000}}]
     for which, n in (('hw', 1500), ('mono', 1000), ('disc', 2000)):
         for i in range(1 if q else 4):
-            us.append({'name': 'gen-%s-%d' % (which, i), 'fn': 'unit_generated', 'kwargs': {'which': which, 'n': n if q else n * 8}})
+            us.append({'name': 'gen-%s-%d' % (which, i), 'fn': 'unit_generated', 'kwargs': {'which': which, 'n': n if q else n * 30}})
     return us
